@@ -232,6 +232,8 @@ def discharge(ctx, site):
             if rng.get("k") == "Struct" and (rng.get("adt") or "").endswith("Range"):
                 fs = {f["name"]: f["e"] for f in rng["fields"]}
                 a, b = fs.get("start"), fs.get("end")
+                if a is not None and b is not None and _lit_int(a) == 0 and _lit_int(b) == 0:
+                    return ("G1", "splice of the constant empty range 0..0 (0 <= 0 <= len always holds)")
                 if a is not None and b is not None and local_of(a) and local_of(a) == local_of(b) and _search_index_of(idx, a) == place:
                     return ("G3", "empty range at an index found by a search over %s (index <= len after the removal at that index)" % place)
         if what.endswith("::unwrap") or what.endswith("::expect"):
